@@ -257,6 +257,9 @@ class BaseEvent(BaseModel, Generic[T_EventResultType]):
     _event_completed_signal: asyncio.Event | None = PrivateAttr(default=None)
     # Number of buses this event is still queued or being processed on (dispatch() increments, process_event() decrements)
     _event_pending_bus_count: int = PrivateAttr(default=0)
+    # The event whose handler dispatched this one: kept so completion can propagate upwards even when
+    # the parent has already been evicted from every bus's (bounded) event_history
+    _event_parent: 'BaseEvent[Any] | None' = PrivateAttr(default=None)
 
     def __hash__(self) -> int:
         """Make events hashable using their unique event_id"""
